@@ -34,6 +34,8 @@ def plan(tier, seed):
     specs.append({"kind": "corrupt", "env": {"TZ": "UTC"}, "tz": "UTC"})
     for j, tz in enumerate(["UTC", "Asia/Tokyo"] if q else ["UTC", "Asia/Tokyo", "America/Los_Angeles", "Pacific/Kiritimati"]):
         specs.append({"kind": "history", "env": {"TZ": tz}, "tz": tz, "rounds": 2 if q else 12})
+    for T in ([4] if q else [2, 4, 8, 16]):
+        specs.append({"kind": "threads", "threads": T, "count": 300 if q else 4000, "env": {"TZ": "Asia/Tokyo"}, "tz": "Asia/Tokyo"})
     return specs
 
 
@@ -297,7 +299,40 @@ def run_history(spec, rec, lib):
             rec.count("default_time_calls_after_earlier_calls_and_a_pause")
 
 
+def run_threads(spec, rec, lib):
+    """builders called from several threads at once (valid and rejected argument tuples mixed): every result carries the
+    arguments of ITS call verbatim and default times read from the clock during the workload"""
+    from ..engines import threads
+
+    rng = random.Random(spec["seed"])
+    tz = spec["tz"]
+    M = lib.metadata_construction
+    jobs, meta = [], []
+    for i in range(spec["count"]):
+        kind = rng.choice(["delegating", "root"])
+        kwc = valid_kwargs(kind, rng)
+        if rng.random() < 0.2:
+            kwc.update(rng.choice([dict(root_version=0), dict(root_threshold=0), dict(root_timestamp="yesterday")] if kind == "root"
+                                  else [dict(metadata_type=5), dict(timestamp="now"), dict(version=0)]))
+        fn = M.build_delegating_metadata if kind == "delegating" else M.build_root_metadata
+        jobs.append((fn, (), caselang.dec(kwc, lib)))
+        meta.append((kind, kwc))
+    t0 = datetime.datetime.now(datetime.timezone.utc).replace(microsecond=0)
+    res = threads.run_calls(lib, jobs, spec["threads"], rec, spec["seed"], prob=0.2, label="builders")
+    t1 = datetime.datetime.now(datetime.timezone.utc)
+    if res is None:
+        return
+    for (kind, kwc), out in zip(meta, res):
+        if out is None:
+            continue
+        rec.case("thr|%s|%s" % (kind, boundary.fingerprint(kwc)))
+        if out.accepted:
+            check_result(kind, None, kwc, out, rec, lib, tz, t0, t1)
+
+
 def run_shard(spec, rec, lib):
+    if spec["kind"] == "threads":
+        return run_threads(spec, rec, lib)
     {"tuples": run_tuples, "corrupt": run_corrupt, "history": run_history}[spec["kind"]](spec, rec, lib)
 
 
